@@ -580,3 +580,116 @@ Qed.
 Lemma published_body_is_own v sg : body (set_sigs v sg) = body v.
 Proof. reflexivity. Qed.
 End C02b.
+
+(* ------------------------------------------------------------------ order independence, over whole histories *)
+Lemma filter_length_ge {A} (f : A -> bool) (eq_dec : forall x y : A, {x = y} + {x <> y}) (sub l : list A) :
+  NoDup sub -> incl sub l -> (forall a, In a sub -> f a = true) -> (length sub <= length (filter f l))%nat.
+Proof.
+  intros ND Hin Hf. apply NoDup_incl_length; [exact ND|]. intros a Ha. apply filter_In. split; [apply Hin; exact Ha|apply Hf; exact Ha].
+Qed.
+
+Section C02c.
+Variable recover : bytes -> bytes -> option bytes.
+Variable keccak : bytes -> bytes.
+Variable sign : bytes -> bytes.
+Variable own : addr.
+Variable gov_chain : Z.
+Variable gov_addr : bytes.
+
+Notation rec := (Processor.rec recover).
+Notation step := (Processor.step recover keccak sign own gov_chain gov_addr).
+Notation run := (Processor.run recover keccak sign own gov_chain gov_addr).
+Notation handle_obs := (Processor.handle_obs recover).
+Notation Inv1 := (ProcC01Proofs.Inv1 recover keccak).
+Notation accepted := (accepted recover).
+
+(* the entry of digest h exists in the current state and in every later state of the run *)
+Fixpoint alive_along (h : bytes) (st : pstate) (ops : list op) : Prop :=
+  match ops with
+  | [] => alookup h (agg st) <> None
+  | o :: t => alookup h (agg st) <> None /\ alive_along h (fst (step st o)) t
+  end.
+
+(* somewhere in the run an observation of digest h by address a was delivered (gossip or loopback) and accepted — i.e. it carried a
+   valid signature of a member of the set applicable at that moment — and the entry of h has existed ever since *)
+Fixpoint accepted_and_alive (h : bytes) (a : addr) (st : pstate) (ops : list op) : Prop :=
+  match ops with
+  | [] => False
+  | o :: t =>
+    ((exists ob g, obs_of_op st o = Some ob /\ o_hash ob = h /\ accepted st ob = Some (a, g)) /\ alive_along h (fst (step st o)) t)
+    \/ accepted_and_alive h a (fst (step st o)) t
+  end.
+
+Lemma recorded_stays h a : forall ops O L st e, Inv1 O L st -> KeysND st -> Forall ProcSpec.op_wf ops ->
+  alookup h (agg st) = Some e -> alookup a (esigs e) <> None -> alive_along h st ops ->
+  exists e', alookup h (agg (fst (run st ops))) = Some e' /\ alookup a (esigs e') <> None.
+Proof.
+  induction ops as [|o ops IH]; intros O L st e HI ND Hw He Ha Hal; cbn [Processor.run].
+  - exists e. split; assumption.
+  - inversion Hw as [|? ? Hw1 Hw2]; subst. cbn [alive_along] in Hal. destruct Hal as [_ Hal].
+    destruct (step_c01 recover keccak sign own gov_chain gov_addr O L st o HI Hw1) as [HI' _].
+    pose proof (step_keys recover keccak sign own gov_chain gov_addr O L st o HI ND) as ND'.
+    assert (Hsome : alookup h (agg (fst (step st o))) <> None) by (destruct ops; cbn [alive_along] in Hal; tauto).
+    destruct (alookup h (agg (fst (step st o)))) as [e1|] eqn:He1; [|contradiction].
+    destruct (step_entry_persists recover keccak sign own gov_chain gov_addr O L st o h e e1 HI ND He He1) as [_ Hp].
+    destruct (step st o) as [st1 out1] eqn:Es. cbn [fst] in *.
+    destruct (IH _ _ st1 e1 HI' ND' Hw2 He1 (Hp a Ha) Hal) as (e' & H1 & H2).
+    destruct (run st1 ops) as [st2 outs]. cbn [fst] in *. exists e'. split; assumption.
+Qed.
+
+Lemma accepted_and_alive_recorded h a : forall ops O L st, Inv1 O L st -> KeysND st -> Forall ProcSpec.op_wf ops ->
+  accepted_and_alive h a st ops ->
+  exists e', alookup h (agg (fst (run st ops))) = Some e' /\ alookup a (esigs e') <> None.
+Proof.
+  induction ops as [|o ops IH]; intros O L st HI ND Hw Hacc; cbn [accepted_and_alive] in Hacc; [contradiction|].
+  inversion Hw as [|? ? Hw1 Hw2]; subst.
+  destruct (step_c01 recover keccak sign own gov_chain gov_addr O L st o HI Hw1) as [HI' _].
+  pose proof (step_keys recover keccak sign own gov_chain gov_addr O L st o HI ND) as ND'.
+  cbn [Processor.run]. destruct Hacc as [[(ob & g & Hob & Hh & Ha) Hal]|Hlater].
+  - (* accepted at this step: recorded in the state after it *)
+    assert (Hrec : exists e1, alookup h (agg (fst (step st o))) = Some e1 /\ alookup a (esigs e1) <> None).
+    { destruct o as [g0|t|m|v|ob0|k|b|]; cbn [obs_of_op] in Hob; try discriminate.
+      - inversion Hob; subst ob0. cbn [Processor.step]. subst h.
+        destruct (accepted_is_recorded recover keccak O L st ob a g HI Ha) as (e1 & H1 & H2). exists e1. split; [exact H1|rewrite H2; discriminate].
+      - cbn [Processor.step]. rewrite Hob. subst h.
+        match goal with |- context [handle_obs ?s ob] =>
+          assert (HIs : Inv1 O L s) by (destruct HI; constructor; assumption);
+          assert (Has : accepted s ob = Some (a, g)) by exact Ha;
+          destruct (accepted_is_recorded recover keccak O L s ob a g HIs Has) as (e1 & H1 & H2) end.
+        exists e1. split; [exact H1|rewrite H2; discriminate]. }
+    destruct Hrec as (e1 & H1 & H2).
+    destruct (step st o) as [st1 out1] eqn:Es. cbn [fst] in *.
+    destruct (recorded_stays h a ops _ _ st1 e1 HI' ND' Hw2 H1 H2 Hal) as (e' & H3 & H4).
+    destruct (run st1 ops) as [st2 outs]. cbn [fst] in *. exists e'. split; assumption.
+  - destruct (step st o) as [st1 out1] eqn:Es. cbn [fst] in *.
+    destruct (IH _ _ st1 HI' ND' Hw2 Hlater) as (e' & H3 & H4).
+    destruct (run st1 ops) as [st2 outs]. cbn [fst] in *. exists e'. split; assumption.
+Qed.
+
+Hypothesis keccak_len : forall b, length (keccak b) = 32%nat.
+Hypothesis own_len : length own = 20%nat.
+Hypothesis sign_correct : forall d, length d = 32%nat -> rec d (sign d) = Some own.
+
+(* C02 (iv): whatever the order, duplication and interleaving with other traffic: if the history contains accepted observations
+   of the digest by at least quorum pairwise distinct members of the set G under which the node observed the message (each followed by
+   an uninterrupted life of the entry), the node is a member of G and its own signature is no longer on its way, then the VAA has
+   been published *)
+Theorem order_independent_publication ops h e G (signers : list addr) : Forall ProcSpec.op_wf ops ->
+  let st := fst (run init ops) in
+  In (h, e) (agg st) -> our_vaa e <> None -> gs_snap e = Some G -> In own (keys G) ->
+  (forall o, In o (loopq st) -> o_hash o <> h) ->
+  NoDup signers -> incl signers (keys G) -> go_quorum (Z.of_nat (length (keys G))) <= Z.of_nat (length signers) ->
+  (forall a, In a signers -> accepted_and_alive h a init ops) ->
+  submitted e = true.
+Proof.
+  intros Hw st Hin H1 H2 H3 Hlq ND Hincl Hq Hacc.
+  eapply (quorum_implies_published recover keccak sign own gov_chain gov_addr keccak_len own_len sign_correct ops h e G Hw Hin H1 H2 H3 Hlq).
+  destruct (reachable_invariants recover keccak sign own gov_chain gov_addr ops Hw) as [_ HK]. fold st in HK.
+  pose proof (alookup_of_In _ _ _ HK Hin) as Hal.
+  assert (Hhas : forall a, In a signers -> has (esigs e) a = true).
+  { intros a Ha. destruct (accepted_and_alive_recorded h a ops [] [] init (init_inv1 recover keccak) ltac:(constructor) Hw (Hacc a Ha)) as (e' & E1 & E2).
+    fold st in E1. assert (e' = e) by congruence. subst e'. unfold has. destruct (alookup a (esigs e)); [reflexivity|contradiction]. }
+  unfold nsigned.
+  pose proof (filter_length_ge (has (esigs e)) (list_eq_dec Byte.byte_eq_dec) signers (keys G) ND Hincl Hhas). lia.
+Qed.
+End C02c.
